@@ -82,6 +82,26 @@ def strncmp (k : Nat → Int) (a : Buf) (i : Nat) (b : Buf) (j n : Nat) : Int :=
 def memcmp (k : Nat → Int) (a : Buf) (i : Nat) (b : Buf) (j n : Nat) : Int :=
   cmp k ((a.drop i).take n) ((b.drop j).take n)
 
+/-- joint precondition of `strncmp` (weaker than `ReadableN` of each array): every pair of units the
+    function has to look at — it stops after `n` pairs, at the first pair that differs and after a
+    pair of zeros — lies inside both arrays -/
+def cmpReadableN : List Nat → List Nat → Nat → Bool
+  | _, _, 0 => true
+  | x :: xs, y :: ys, n + 1 => x != y || x == 0 || cmpReadableN xs ys n
+  | _, _, _ + 1 => false
+
+/-! ### exact allocations
+
+What C lets a function touch, cut out of the allocation as an allocation of its own (nothing before
+the pointer, nothing after the last unit): the harness passes exactly these. -/
+
+/-- the string at `(b, p)` with its terminator -/
+def exactStr (b : Buf) (p : Nat) : Buf := upto0 (b.drop p)
+/-- the part of the array at `(b, p)` an `n`-function may read: `n` units, or fewer up to and including a zero -/
+def exactN (b : Buf) (p n : Nat) : Buf := upto0 ((b.drop p).take n)
+/-- exactly `n` units from `p` (source of the `mem` functions, destination extents) -/
+def exactArr (b : Buf) (p n : Nat) : Buf := (b.drop p).take n
+
 /-- 7.24.5.2: first occurrence of `c` in the string; the terminator is part of the string -/
 def strchr (b : Buf) (p c : Nat) : Option Nat := (cstr b p ++ [0]).findIdx? (· == c)
 
